@@ -298,7 +298,7 @@ pub fn explore_plans(prop: &'static str, tier: Tier, reporter: &Reporter, ev: &m
     }
     let budget = match tier {
         Tier::Quick => Duration::from_secs(40),
-        Tier::Thorough => Duration::from_secs(3000),
+        Tier::Thorough => Duration::from_secs(900),
     };
     let per_plan = budget.mul_f64(budget_share) / plans.len() as u32;
     let mut per_cfg = vec![];
